@@ -7,6 +7,8 @@ package atree
 // equivalence, happens-before race detection), symbolic fault schedule on the
 // ledger double and symbolic encode failures.
 
+import "runtime"
+
 type vhDirty struct {
 	id     SlabID
 	del    bool   // pending delete
@@ -231,6 +233,20 @@ func VH_C16_ParallelCommit() {
 			vhAssert(len(base.log) == 0, "deterministic commit: nothing written when an encode fails")
 		}
 		vhCheckPartial(st, base, ds, "after encode failure")
+	}
+	// The commit has returned: its caller owns the slabs again and goes on
+	// using them. A worker goroutine that is still reading a slab at this point
+	// (it outlived the call) races with the caller: the happens-before
+	// detector reports it when the leftover goroutine gets to run.
+	for _, d := range ds {
+		for _, holder := range []map[SlabID]Slab{st.deltas, st.cache} {
+			if ss, ok := holder[d.id].(*StorableSlab); ok {
+				ss.storable = vVer{version: 4242}
+			}
+		}
+	}
+	for i := 0; i < 3; i++ {
+		runtime.Gosched()
 	}
 	vhReach("parallel-done")
 }
